@@ -98,3 +98,14 @@ R.contract(f'{TK}:get_direct_dependencies',
                 "forall('Inst','Field', lambda i, f: implies((f in __done_outer__) and (i in tasks_in(fieldval(task, f))), exists('Inst', lambda j: (j in __ret__) and (Inst_to_Task(j) == Inst_to_Task(i)))))",
                 "forall('Inst','Field', lambda i, f: implies((f in __done_outer__) and (i in tasks_in(fieldval(task, f))), i in __ret__))",
                 ])
+
+# ---- Task.result (tasks.py:78-85)
+R.func('has_legacy_result', ['Inst'], 'Bool')
+R.hasattr_tests = {('Inst', '_result'): 'has_legacy_result(x)'}
+R.contract(f'{TK}:_task_result', self_type='Inst', params={}, returns='Val',
+    requires=[C("not has_legacy_result(self)", 'A-no-memo: nothing in labtech ever sets a `_result` attribute on a task (the hasattr fast path is dead code)')],
+    ensures=[C("(not isnone(self._results_map)) and (Inst_to_Task(self) in unopt(self._results_map)) and (result == unopt(self._results_map)[Inst_to_Task(self)].value)",
+               'reading a dependency\'s result yields what the runner-provided map of THIS run holds for that very task', serves=('C02', 'C01'))],
+    raises={'TaskError': [C("isnone(self._results_map) or (Inst_to_Task(self) not in unopt(self._results_map))",
+                            'it raises exactly when this run has no result for the task (e.g. the dependency failed)', serves=('C02', 'C10'))]},
+    frame=[])
